@@ -210,10 +210,13 @@ def graph_clauses(G, H, opts=None):
     (ignore_aromaticity only changes standard_order on bonds whose orders differ by less than one unit: documented)"""
     from synkit.Graph.ITS.its_construction import ITSConstruction
     from synkit.Graph.ITS.its_decompose import its_decompose
+    import copy
     fails = []
+    G0, H0 = copy.deepcopy(G), copy.deepcopy(H)          # "the original two graphs" = the graphs before the calls
     its = ITSConstruction.ITSGraph(G, H) if opts is None else E.call_construct(G, H, opts)
     ia = bool(opts and opts.get("ia"))
     g2, h2 = its_decompose(its)
+    G, H = G0, H0
     _cmp_graph("reactant", G, g2, fails)
     _cmp_graph("product", H, h2, fails)
     # the ITS has exactly the union of atoms and bonds, each bond with (before, after) and the difference
